@@ -43,9 +43,9 @@ Section Poly.
 
   (* one dense vector per (dense vector, stored positions, values written back) *)
   Fixpoint scatter_all (vs : list (list Z)) (lay : list (list nat)) (outs : list (list V)) : list (list V) :=
-    match vs, lay, outs with
-    | v :: vs', ord :: lay', o :: outs' => scatter (length v) ord o :: scatter_all vs' lay' outs'
-    | _, _, _ => []
+    match vs with
+    | [] => []
+    | v :: vs' => scatter (length v) (hd [] lay) (hd [] outs) :: scatter_all vs' (tl lay) (tl outs)
     end.
 End Poly.
 
